@@ -57,6 +57,10 @@ CHECKS = {
              text="Exhaustive over the adversary family for limits 0..4: generator outcomes valid/invalid/echo/raise per attempt, provider tools/plain per round, and for the swarm 9 worker policies (never repeating, repeating, alternating, marker at step k, crash at step k) per worker x step limits 0..4 x three entropy thresholds (regeneration limits 3..4 sampled); TLC evaluates the budget clauses (generator calls, workers spawned, steps per worker, tool rounds + one final completion), error threading and result soundness on the recorded counters.",
              note="Trusted: TLC/SANY, counting stubs. Error threading is judged against the error trace an independent Chaperone produces for the previous output.",
              ref="DESIGN.md section 4 C18"),
+ "C16": dict(technique="TLA+ spec (Wiring.tla: connection rule, schedulability, executor as a scheduling machine) judging recorded constructions and executions of the real WiringDiagram / DiagramExecutor (Trace_Wiring.tla runs the machine per record and evaluates the C16 clauses)",
+             text="An exhaustive family of two-module diagrams plus seeded random diagrams (1..7 modules, 0..3 ports per side, all data types x integrity labels, sensible and adversarial wires incl. cycles / fan-in / unknown names, raw / labelled / mislabelled / missing / extra handler outputs, raw / typed / mistyped external inputs) are built and executed on the real code; TLC evaluates ConnectExact, DeliveredWellTyped, OutputsChecked, OncePerModule, AfterFeeders, UnschedulableRaises and CapsUnion on every record and compares the outcome with the specification's scheduling machine.",
+             note="Trusted: TLC/SANY, logging handler stubs, origin-tagged payloads. Random diagrams are sampled with the seed (4k quick / 100k thorough); the property's own quantifier is over randomly generated diagrams.",
+             ref="DESIGN.md section 4 C16"),
 }
 NOT_APPLICABLE = []
 
